@@ -726,23 +726,57 @@ func walNoWrapGroup(c *Ctx, rule string) {
 			k, ok := ConstInt(bo.X)
 			return ok && k == 1 && isLenPayload(bo.Y)
 		}
-		// a comparison of the total with a constant <= MaxUint32 (or of len(payload) with a
-		// constant <= MaxUint32-1) is the atom "len:max"; `x > c` rejects at least every wrap
-		classify := func(bo *ssa.BinOp) (string, bool, bool) {
-			side := func(a, b ssa.Value) bool {
-				k, ok := ConstInt(Unwrap(b))
-				if !ok || k < 1<<16 {
-					return false
+		// comparisons of the total (or of len(payload) = total-1) with a constant are evaluated
+		// concretely for three record sizes: a small one, the largest that fits (total ==
+		// MaxUint32) and the smallest that wraps (total == MaxUint32+1)
+		type cmpSite struct {
+			bo      *ssa.BinOp
+			flipped bool
+			onTotal bool
+			k       int64
+		}
+		var sites []cmpSite
+		AllInstrs(fn, false, func(in ssa.Instruction) {
+			bo, ok := in.(*ssa.BinOp)
+			if !ok {
+				return
+			}
+			switch bo.Op {
+			case token.LSS, token.LEQ, token.GTR, token.GEQ, token.EQL, token.NEQ:
+			default:
+				return
+			}
+			if k, isC := ConstInt(Unwrap(bo.Y)); isC && (isTotal(bo.X) || isLenPayload(bo.X)) {
+				sites = append(sites, cmpSite{bo, false, isTotal(bo.X), k})
+			} else if k, isC := ConstInt(Unwrap(bo.X)); isC && (isTotal(bo.Y) || isLenPayload(bo.Y)) {
+				sites = append(sites, cmpSite{bo, true, isTotal(bo.Y), k})
+			}
+		})
+		envFor := func(total int64) *SignEnv {
+			signs := map[string]int{}
+			atoms := map[*ssa.BinOp]string{}
+			for i, st := range sites {
+				v := total
+				if !st.onTotal {
+					v = total - 1
 				}
-				return isTotal(a) && k <= maxU32 || isLenPayload(a) && k <= maxU32-1
+				sg := 0
+				if v < st.k {
+					sg = -1
+				} else if v > st.k {
+					sg = 1
+				}
+				atoms[st.bo] = fmt.Sprintf("cmp%d", i)
+				signs[atoms[st.bo]] = sg
 			}
-			if side(bo.X, bo.Y) {
-				return "len:max", false, true
-			}
-			if side(bo.Y, bo.X) {
-				return "len:max", true, true
-			}
-			return "", false, false
+			return &SignEnv{Depth: 1, Signs: signs, Classify: func(bo *ssa.BinOp) (string, bool, bool) {
+				for _, st := range sites {
+					if st.bo == bo {
+						return atoms[bo], st.flipped, true
+					}
+				}
+				return "", false, false
+			}}
 		}
 		var writes []ssa.CallInstruction
 		for _, w := range Calls(fn, false, Named("(io.Writer).Write")) {
@@ -753,11 +787,11 @@ func walNoWrapGroup(c *Ctx, rule string) {
 		c.Floor(rule, len(writes), 1, "writes to the destination in EncodeRecord")
 		over, fits := false, true
 		for _, w := range writes {
-			if (&SignEnv{Classify: classify, Signs: map[string]int{"len:max": 1}, Depth: 1}).Reaches(fn, w.(ssa.Instruction)) {
+			if envFor(maxU32+1).Reaches(fn, w.(ssa.Instruction)) {
 				over = true
 			}
-			for _, sg := range []int{-1, 0} {
-				if !(&SignEnv{Classify: classify, Signs: map[string]int{"len:max": sg}, Depth: 1}).Reaches(fn, w.(ssa.Instruction)) {
+			for _, total := range []int64{100, maxU32} {
+				if !envFor(total).Reaches(fn, w.(ssa.Instruction)) {
 					fits = false
 				}
 			}
@@ -870,8 +904,15 @@ func valuePointerKeyGroup(c *Ctx, rule string) {
 				if !ok || len(call.Call.Args) != 2 || !Named("kv.SameKey", "bytes.Equal")(call.Common()) {
 					return Unknown
 				}
-				if isKey(call.Call.Args[0]) || isKey(call.Call.Args[1]) {
-					return match
+				// the key handed to ReadValueOf, or – when the comparison lives in a helper –
+				// a []byte parameter of that helper
+				for _, a := range call.Call.Args {
+					if isKey(a) {
+						return match
+					}
+					if p, ok := Unwrap(a).(*ssa.Parameter); ok && p.Parent() != rv {
+						return match
+					}
 				}
 				return Unknown
 			}}
